@@ -41,7 +41,7 @@ def cf_case(draw):
     if auto:
         present = [p for p in present if p != "rd"] or ["dr"]
     exact = draw(st.booleans())
-    out = {"binning": binning, "npatch": npatch, "auto": auto, "present": present, "exact": exact}
+    out = {"binning": binning, "npatch": npatch, "auto": auto, "present": present, "exact": exact, "prior": draw(st.sampled_from([None, None, "get_array", "sample"]))}
     for kind in ["dd"] + present:
         member_auto = auto and kind in ("dd", "rr")
         out[kind] = draw(gen.normalised_counts_case(binning=binning, npatch=npatch, auto=member_auto, exact=exact, positive_weights=draw(st.booleans())))
@@ -93,6 +93,13 @@ def run_cf(case):
         ck.cls("ls_without_dr(not judged)")
         return ck.results()
     with np.errstate(all="ignore"):
+        if c.get("prior") == "get_array":
+            for member in cf.to_dict().values():
+                ck.call(member.get_array, "NormalisedCounts.get_array")
+            ck.cls("prior:get_array")
+        elif c.get("prior") == "sample":
+            ck.call(cf.sample, "CorrFunc.sample")
+            ck.cls("prior:sample")
         ok, s = ck.call(cf.sample, "CorrFunc.sample")
     if not ok:
         return ck.results()
